@@ -64,23 +64,38 @@ func genWParams(t *rapid.T, epochs []uint64) ck.Params {
 
 // genWCase draws a history: an optional linear prefix in which the wallet collects coinbase
 // rewards (so that some mature later), then runs of blocks; each run starts `back` blocks
-// behind the previous block, so a run longer than its `back` reorganises the chain.
-func genWCase(prefixMin, prefixMax, runsMin, runsMax int, epochs []uint64) func(t *rapid.T) wCase {
+// behind the previous block, so a run longer than its `back` reorganises the chain.  The
+// checkpoint blocks of some runs carry verification signatures: a justified checkpoint on a
+// shorter branch makes the node switch from a longer chain to a shorter one.
+func genWCase(prefixMin, prefixMax, runsMin, runsMax int, epochs []uint64, farBack int) func(t *rapid.T) wCase {
 	return func(t *rapid.T) wCase {
 		c := wCase{Params: genWParams(t, epochs), Accts: genAccts(t)}
 		prefix := rapid.IntRange(prefixMin, prefixMax).Draw(t, "prefix")
 		for i := 0; i < prefix; i++ {
 			b := wBlock{CB: rapid.IntRange(0, 3).Draw(t, "pcb")}
-			if rapid.IntRange(0, 2).Draw(t, "ptxq") == 0 {
+			if i >= 13 {
+				// from height 14 on the first reward outputs are mature: spend them (a later switch to a shorter chain un-spends them)
+				if rapid.IntRange(0, 2).Draw(t, "ptxq2") != 0 {
+					b.Txs = append(b.Txs, genWTx(t, []string{"wspend", "wspend", "wspend", "wveto", "pay", "payvote", "wvote"}))
+				}
+			} else if rapid.IntRange(0, 2).Draw(t, "ptxq") == 0 {
 				b.Txs = append(b.Txs, genWTx(t, []string{"pay", "payvote", "wvote", "wspend", "wveto"}))
 			}
 			c.Blocks = append(c.Blocks, b)
 		}
 		runs := rapid.IntRange(runsMin, runsMax).Draw(t, "runs")
 		for r := 0; r < runs && len(c.Blocks) < 60; r++ {
-			back := 0
+			back, supQ := 0, 0
 			if r > 0 || prefix > 0 {
-				back = rapid.IntRange(0, 4).Draw(t, "back")
+				switch q := rapid.IntRange(0, 3).Draw(t, "backq"); {
+				case q == 0 || (q == 1 && farBack > 14):
+					// far back, with signatures: a candidate for a long-to-short switch
+					back = rapid.IntRange(3, farBack).Draw(t, "backfar")
+					supQ = rapid.IntRange(1, 2).Draw(t, "supqfar")
+				default:
+					back = rapid.IntRange(0, 4).Draw(t, "back")
+					supQ = rapid.SampledFrom([]int{0, 0, 0, 1, 2}).Draw(t, "supq")
+				}
 			}
 			length := rapid.IntRange(1, 6).Draw(t, "runlen")
 			for i := 0; i < length; i++ {
@@ -97,6 +112,12 @@ func genWCase(prefixMin, prefixMax, runsMin, runsMax int, epochs []uint64) func(
 				ntx := rapid.IntRange(0, 3).Draw(t, "ntx")
 				for k := 0; k < ntx; k++ {
 					b.Txs = append(b.Txs, genWTx(t, wKinds))
+				}
+				if supQ == 2 || (supQ == 1 && rapid.Bool().Draw(t, "sup")) {
+					src := rapid.SampledFrom([]int{0, 0, 0, 1, 2}).Draw(t, "supsrc")
+					for v := 0; v < c.Params.Validators; v++ {
+						b.Sup = append(b.Sup, ck.SupDesc{Validator: v, Source: src})
+					}
 				}
 				c.Blocks = append(c.Blocks, b)
 			}
@@ -160,7 +181,8 @@ func walletExec(mode judgeMode) func(c wCase, x *pbt.Ctx) error {
 		var hist []string // what the wallet did, for the failure message
 		restored := map[bc.Hash]int{}
 		accepted := map[int]bool{0: true}
-		reorgs, lagged := 0, 0
+		reorgs, lagged, shrank, refused := 0, 0, 0, 0
+		prevHeight := uint64(0)
 		var detVote, detVeto, detSpend, detCB bool
 		judgedRestored := map[string]bool{}
 		usable := map[string]bool{}
@@ -168,9 +190,17 @@ func walletExec(mode judgeMode) func(c wCase, x *pbt.Ctx) error {
 		for k, i := range order {
 			orphan, derr := e.n.Deliver(i)
 			if derr != nil {
-				if accepted[w.Blocks[i].Parent] {
+				// a block that does not descend from the last finalized checkpoint is refused by design (DESIGN 4.7)
+				offFinal := false
+				if fh, ferr := e.n.Chain.LastFinalizedHeader(); ferr == nil {
+					if fi, ok := w.ByHash[fh.Hash()]; ok && !w.IsAncestor(fi, i) {
+						offFinal = true
+					}
+				}
+				if accepted[w.Blocks[i].Parent] && !offFinal {
 					return fmt.Errorf("HARNESS-SUSPECT: node refuses block %s that the model holds valid: %v", e.describeBlock(i), derr)
 				}
+				refused++
 			} else if !orphan {
 				// the block and every orphan that waited for it are now stored
 				accepted[i] = true
@@ -182,6 +212,12 @@ func walletExec(mode judgeMode) func(c wCase, x *pbt.Ctx) error {
 						}
 					}
 				}
+			}
+			if h := e.n.Chain.BestBlockHeight(); h < prevHeight {
+				shrank++
+				prevHeight = h
+			} else {
+				prevHeight = h
 			}
 			last := k == len(order)-1
 			if lazy[k] && !last {
@@ -293,6 +329,12 @@ func walletExec(mode judgeMode) func(c wCase, x *pbt.Ctx) error {
 		if lagged > 0 {
 			x.Class("wallet-lagged")
 		}
+		if shrank > 0 {
+			x.Class("chain-got-shorter")
+		}
+		if refused > 0 {
+			x.Class("block-off-the-finalized-checkpoint-refused")
+		}
 		if len(c.Order) > 0 {
 			x.Class("shuffled-delivery")
 		}
@@ -328,7 +370,7 @@ func walletExec(mode judgeMode) func(c wCase, x *pbt.Ctx) error {
 			for k := range judgedRestored {
 				x.Class("judged-usable-restored-" + k)
 			}
-			x.NonTrivial = len(judgedRestored) > 0
+			x.NonTrivial = judgedRestored["coinbase"] || judgedRestored["vote"]
 		}
 		return nil
 	}
@@ -336,5 +378,5 @@ func walletExec(mode judgeMode) func(c wCase, x *pbt.Ctx) error {
 
 func TestC24(t *testing.T) {
 	pbt.Run(t, "C24", "block trees of up to 60 blocks built as runs that start 0-4 blocks behind the previous block (a longer run reorganises), 1-3 wallet accounts (single key / 2-of-3) with 3 programs each; blocks pay wallet programs (normal, vote, issued asset, coinbase rewards) and carry wallet-signed spends, vetoes, votes and asset transfers of wallet outputs resolved against the model state of the parent; blocks are delivered in order or shuffled, the wallet updater (VerifStep) runs to quiescence after each delivery except at 'lazy' positions; after each quiescence every GetAccountUtxos view (all/each account x smart-contract flag x vote flag) and the raw ACU:/SCU: records equal those of a fresh wallet database with the same accounts that followed only the current main chain, on output id, asset, amount, program, account, vote key; non-trivial = the wallet detached a block containing a wallet vote output or a veto/spend of a wallet output; distinct = case JSON",
-		pbt.Options{Checks: pbt.Per(150, 15000), MinClass: map[string]int{}}, genWCase(0, 6, 2, 7, []uint64{3, 4}), walletExec(judgeRescan))
+		pbt.Options{Checks: pbt.Per(400, 24000), MinClass: map[string]int{"detached-wallet-vote-output": 20, "detached-veto-of-wallet-output": 10, "detached-spend-of-wallet-output": 10, "chain-got-shorter": 10}}, genWCase(0, 6, 2, 7, []uint64{3, 4}, 14), walletExec(judgeRescan))
 }
